@@ -555,6 +555,8 @@ int main(int argc, char** argv) {
                         for (uint64_t q = 0; q < pa->spine.point_array.count; q++)
                             if (!close(pa->spine.point_array[q].x, pb->spine.point_array[q].x) || !close(pa->spine.point_array[q].y, pb->spine.point_array[q].y))
                                 bad = "path vertex not rescaled";
+                        // the default path tolerance is one database unit expressed in the unit of the LOADED library: it rescales too
+                        if (!close(pa->spine.tolerance, pb->spine.tolerance)) bad = "default path tolerance not rescaled to the target unit";
                         if (!close(pa->elements[0].half_width_and_offset[0].u, pb->elements[0].half_width_and_offset[0].u)) bad = "path width not rescaled";
                         if (!close(pa->elements[0].end_extensions.u, pb->elements[0].end_extensions.u)) bad = "path extension not rescaled";
                     }
